@@ -11,6 +11,7 @@
                     same sequence (project / merge / fromdict)
   order-filter      marginalize / invert / canonical keep the domain's own attribute order (comprehension over self.attrs
                     filtered by membership)
+  equality          Domain.__eq__ compares the attribute sequences in order, and the sizes
   none-test         an `attrs=None` default meaning "all attributes" is tested by comparison with None, not by truthiness
                     (an empty attribute list is a legal argument and means the empty product)
   exact-size        the number of cells is the exact (arbitrary-precision) product of the attribute sizes: reduce/math.prod over
@@ -26,6 +27,64 @@ from ..srcmodel import AnalysisError, U, calls_in, walk_shallow, names_in
 
 DS = 'src/mbi/dataset.py'
 DOM = 'src/mbi/domain.py'
+
+
+def check_equality(ctx):
+    """Domain.__eq__: two domains are equal when they list the same attributes IN THE SAME ORDER with the same sizes (a domain is an ordered
+    product: `D.transpose(perm) == D` must be false for a non-trivial permutation, datasets over the two vectorise differently).  Accepted:
+    ordered comparison of the attribute sequences and of the size sequences (separately, as a pair, or zipped into a LIST / TUPLE of
+    pairs).  Reported: a comparison through a dict / set (or of `config`, which is a dict): order is ignored."""
+    if not ctx.repo.has_func(DOM, 'Domain.__eq__'):
+        raise AnalysisError('anchor vanished: Domain.__eq__')
+    fi = ctx.repo.nfunc(DOM, 'Domain.__eq__')
+    ctx.analysed(fi)
+    other = fi.params[1]
+    rets = [r for r in ast.walk(fi.node) if isinstance(r, ast.Return) and r.value is not None]
+    if len(rets) != 1:
+        raise AnalysisError('Domain.__eq__: expected one return')
+    e = rets[0].value
+    conj = e.values if isinstance(e, ast.BoolOp) and isinstance(e.op, ast.And) else [e]
+    ordered, unordered, sizes, names = False, None, False, False
+
+    def side(x, who):
+        """what one side of a comparison denotes: ('attrs'|'shape'|'pairs-ordered'|'pairs-unordered'|'both'), or None"""
+        t = U(x).replace(' ', '')
+        if t == who + '.attrs' or t in ('tuple(%s.attrs)' % who, 'list(%s.attrs)' % who):
+            return 'attrs'
+        if t == who + '.shape' or t in ('tuple(%s.shape)' % who, 'list(%s.shape)' % who):
+            return 'shape'
+        if t in ('(%s.attrs,%s.shape)' % (who, who), '[%s.attrs,%s.shape]' % (who, who)):
+            return 'both'
+        z = 'zip(%s.attrs,%s.shape)' % (who, who)
+        if t in ('list(%s)' % z, 'tuple(%s)' % z):
+            return 'pairs-ordered'
+        if t in ('dict(%s)' % z, 'set(%s)' % z, 'frozenset(%s)' % z, who + '.config', 'set(%s.attrs)' % who, 'frozenset(%s.attrs)' % who,
+                 'sorted(%s)' % z, 'sorted(%s.attrs)' % who, 'set(%s.config.items())' % who, 'sorted(%s.config.items())' % who):
+            return 'unordered'
+        return None
+    for c in conj:
+        if not (isinstance(c, ast.Compare) and len(c.ops) == 1 and isinstance(c.ops[0], ast.Eq)):
+            raise AnalysisError('Domain.__eq__: `%s` is in no recognised form' % U(c)[:80])
+        l, r = c.left, c.comparators[0]
+        a, b = side(l, 'self'), side(r, other)
+        if a is None or b is None:
+            a, b = side(r, 'self'), side(l, other)
+        if a is None or b is None or a != b:
+            raise AnalysisError('Domain.__eq__: `%s` is in no recognised form' % U(c)[:80])
+        if a == 'attrs':
+            names = True
+        elif a == 'shape':
+            sizes = True
+        elif a in ('both', 'pairs-ordered'):
+            names = sizes = True
+        elif a == 'unordered':
+            unordered = c
+    ok = names and sizes
+    ctx.ob('equality', fi, unordered if unordered is not None else rets[0], ok,
+           'domains are equal iff they list the same attributes in the same ORDER with the same sizes%s; returns `%s`'
+           % ('' if ok else (' - a comparison through a dict / set / sorted view ignores the order (a transposed domain would equal the original)'
+                             if unordered is not None else ' - the %s are not compared' % ('sizes' if names else 'attribute sequences')), U(e)[:100]),
+           construct='Domain.__eq__')
 
 
 def alternatives(v):
@@ -67,6 +126,7 @@ def run(ctx):
     ctx.floor('stores to Dataset fields', n_owner, 3)
     check_bare_names(ctx)
     check_size_bare_name(ctx)
+    check_equality(ctx)
     check_sort_and_load(ctx)
 
     # ---- column order on every constructor path ----------------------------------------------------
@@ -107,6 +167,8 @@ def run(ctx):
     ok = bool(exits) and all(st.get('self.weights') == ('p', p_w) for _, st in exits)
     detail = ''
     if not ok:
+        ok, detail = weights_sanitised(init, p_w)
+    if not ok and not detail:
         ok, detail = weights_kept(init, p_w)
     ctx.ob('project-consistent', init, init.node, ok, 'the constructor must keep the weights it is given' + detail, construct='self.weights store')
 
@@ -357,6 +419,26 @@ def check_other_vector_paths(ctx, dv, hist_call, scatter_tables=()):
         ctx.ob('histogram', dv, r, m is not None,
                'the single-attribute count must have one entry per value of the attribute (minlength = the attribute\'s size): without it '
                'numpy.bincount stops at the largest value present and the vector is shorter than the domain', construct='length of bincount')
+
+
+def weights_sanitised(init, w):
+    """the weights parameter re-bound before it is stored: accepted when the new value equals the old one for every FINITE weight
+    (`np.where(np.isfinite(w), w, 0)`, `np.nan_to_num(w)`, a dtype conversion); reported when finite weights are altered (negative ones
+    clipped / zeroed, absolute values); anything else is an analysis error.  -> (ok, detail); (False, '') when there is no such re-binding"""
+    rebinds = [a for a in ast.walk(init.node) if isinstance(a, ast.Assign) and len(a.targets) == 1 and U(a.targets[0]) == w]
+    stores = [a for a in ast.walk(init.node) if isinstance(a, ast.Assign) and len(a.targets) == 1 and U(a.targets[0]) == 'self.weights']
+    if not rebinds or len(stores) != 1 or U(stores[0].value) != w:
+        return False, ''
+    for a in rebinds:
+        t = U(a.value).replace(' ', '')
+        if t in ('np.where(np.isfinite(%s),%s,0)' % (w, w), 'np.where(np.isfinite(%s),%s,0.0)' % (w, w), 'np.nan_to_num(%s)' % w,
+                 'np.asarray(%s)' % w, 'np.asarray(%s,dtype=float)' % w, 'np.array(%s)' % w, 'np.array(%s,dtype=float)' % w, '%s.astype(float)' % w):
+            continue
+        if t in ('np.where(%s>0,%s,0)' % (w, w), 'np.where(%s>=0,%s,0)' % (w, w), 'np.clip(%s,0,None)' % w, 'np.maximum(%s,0)' % w, 'np.maximum(0,%s)' % w,
+                 'np.abs(%s)' % w, 'abs(%s)' % w, '%s.clip(0)' % w, '%s.clip(0,None)' % w, 'np.where(%s>0,%s,0.0)' % (w, w)):
+            return False, ': `%s` alters finite weights (negative ones), the table of a dataset with signed weights is no longer the weighted count' % U(a.value)
+        raise AnalysisError('Dataset.__init__: the weights are re-bound to `%s` before they are stored, which is in no recognised form' % U(a.value)[:80])
+    return True, ''
 
 
 def weights_kept(init, w):
